@@ -111,7 +111,9 @@ def run_case(case):
     def reorder(d):
         return dict(sorted(d.items())) if isinstance(d, dict) else d
     site = f"SystemLoss{'ODE' if kind == 'ode' else 'PDE'}/{kind}"
-    nets_ = {n: L.make_u(kind, d, 1, deg=2, salt=3 + i) for i, n in enumerate(names)}
+    # the first unknown of a PDE system has two outputs, of which the boundary condition constrains component 1 only
+    nout = {n: (2 if (kind != "ode" and i == 0) else 1) for i, n in enumerate(names)}
+    nets_ = {n: L.make_u(kind, d, nout[n], deg=2, salt=3 + i) for i, n in enumerate(names)}
     u_dict = {n: nets_[n][0] for n in names}
     pd = jinns.parameters.ParamsDict(nn_params={n: u_dict[n].init_params() for n in names}, eq_params={"a": jnp.asarray(0.7)})
     dyn = {k: REC[kind](idx=i, names=tuple(names)) for i, k in enumerate(eqkeys)}
@@ -125,7 +127,8 @@ def run_case(case):
             return False
         i = names.index(n)
         return (what == "ic") if i == 0 else (what in ("bc", "obs"))
-    obs = {n: ({"pinn_in": jnp.asarray(L.points(2, nv, salt=7 + i)), "val": jnp.asarray(np.array([[0.2], [-0.1]]) * (i + 1)), "eq_params": {}} if has(n, "obs") else None)
+    nout_pre = {n: (2 if (kind != "ode" and i == 0) else 1) for i, n in enumerate(names)}
+    obs = {n: ({"pinn_in": jnp.asarray(L.points(2, nv, salt=7 + i)), "val": jnp.asarray(np.array([[0.2], [-0.1]]) * (i + 1) * np.ones((1, nout_pre[n]))), "eq_params": {}} if has(n, "obs") else None)
            for i, n in enumerate(names)}
     any_obs = any(o is not None for o in obs.values())
     border = None
@@ -152,9 +155,10 @@ def run_case(case):
         lw = jinns.loss.LossWeightsPDEDict(dyn_loss=form(wd), norm_loss=None, boundary_loss=form(wc("bc", 2)), observations=form(wc("obs", 1)), initial_condition=form(wc("ic", 0)))
         bf = (lambda dx: 0.25) if kind == "statio" else (lambda t, dx: 0.25)
         kw = dict(omega_boundary_fun_dict={n: (bf if has(n, "bc") else None) for n in names},
-                  omega_boundary_condition_dict={n: ("dirichlet" if has(n, "bc") else None) for n in names})
+                  omega_boundary_condition_dict={n: ("dirichlet" if has(n, "bc") else None) for n in names},
+                  omega_boundary_dim_dict={n: (1 if nout[n] == 2 else None) for n in names})
         if kind == "nonstatio":
-            kw["initial_condition_fun_dict"] = {n: ((lambda x, i=i: jnp.sin(x[0]) * (i + 1)) if has(n, "ic") else None) for i, n in enumerate(names)}
+            kw["initial_condition_fun_dict"] = {n: ((lambda x, i=i, k=nout[n]: jnp.sin(x[0]) * (i + 1) * jnp.ones((k,))) if has(n, "ic") else None) for i, n in enumerate(names)}
         loss = L.quiet(jinns.loss.SystemLossPDE, u_dict=u_dict, dynamic_loss_dict=dyn, loss_weights=lw, params_dict=pd, **kw)
     total, terms = L.jit_eval(loss, pd, batch)
     total, terms = float(total), {k: float(x) for k, x in terms.items()}
@@ -185,10 +189,11 @@ def run_case(case):
             single = L.quiet(jinns.loss.LossODE, u=u_dict[n], dynamic_loss=None, initial_condition=ic[n], params=p1)
         elif kind == "statio":
             single = L.quiet(jinns.loss.LossPDEStatio, u=u_dict[n], dynamic_loss=None, omega_boundary_fun=kw["omega_boundary_fun_dict"][n],
-                             omega_boundary_condition=kw["omega_boundary_condition_dict"][n], params=p1)
+                             omega_boundary_condition=kw["omega_boundary_condition_dict"][n], omega_boundary_dim=kw["omega_boundary_dim_dict"][n], params=p1)
         else:
             single = L.quiet(jinns.loss.LossPDENonStatio, u=u_dict[n], dynamic_loss=None, omega_boundary_fun=kw["omega_boundary_fun_dict"][n],
-                             omega_boundary_condition=kw["omega_boundary_condition_dict"][n], initial_condition_fun=kw["initial_condition_fun_dict"][n], params=p1)
+                             omega_boundary_condition=kw["omega_boundary_condition_dict"][n], omega_boundary_dim=kw["omega_boundary_dim_dict"][n],
+                             initial_condition_fun=kw["initial_condition_fun_dict"][n], params=p1)
         sb = L.make_batch(kind, pts, border=border, obs=ob)
         st = {k: float(x) for k, x in L.jit_eval(single, p1, sb)[1].items()}
         for term, j0, nm in (("initial_condition", 0, "ic"), ("observations", 1, "obs"), ("boundary_loss", 2, "bc")):
